@@ -38,9 +38,40 @@ fn scratch() -> PathBuf {
     std::fs::create_dir_all(&d).expect("scratch dir");
     d
 }
+/// How this run spells the file names it hands to the code under test (directory form is chosen in run_one).
+static NAME_STYLE: std::sync::atomic::AtomicU64 = std::sync::atomic::AtomicU64::new(0);
+const NAME_STYLES: [&str; 9] = ["plain", "upper-ext", "no-ext", "non-ascii+space", "long-name", "hidden", "other-ext", "many-dots", "symlink"];
+fn nm(dir: &Path, name: &str) -> PathBuf {
+    let (stem, ext) = match name.rfind('.') {
+        Some(i) => (&name[..i], &name[i + 1..]),
+        None => (name, ""),
+    };
+    let n = match NAME_STYLE.load(std::sync::atomic::Ordering::Relaxed) {
+        1 => format!("{}.{}", stem, ext.to_uppercase()),
+        2 => format!("{}_{}", stem, ext),
+        3 => format!("\u{82af}\u{7247} \u{df} {}.{}", stem, ext),
+        4 => format!("{}{}.{}", stem, "x".repeat(200), ext),
+        5 => format!(".{}.{}", stem, ext),
+        6 => format!("{}.{}.bak", stem, ext),
+        7 => format!("{}.v2.final.{}", stem, ext),
+        8 => {
+            // the name is a symbolic link to a file that may or may not exist yet
+            let link = dir.join(format!("link_{}", name));
+            if !link.is_symlink() {
+                let _ = std::fs::remove_file(&link);
+                let _ = std::os::unix::fs::symlink(format!("target_of_{}", name), &link);
+            }
+            return link;
+        }
+        _ => name.to_string(),
+    };
+    dir.join(n)
+}
 /// Destination pre-state: what already exists at the path before the helper under test writes it
 fn prestate(t: &mut Tape, path: &Path, new_len: usize) -> &'static str {
-    let _ = std::fs::remove_file(path);
+    // a symbolic link stays in place: its target is what is absent / junk
+    let target = if path.is_symlink() { path.parent().unwrap_or(Path::new("")).join(std::fs::read_link(path).unwrap()) } else { path.to_path_buf() };
+    let _ = std::fs::remove_file(&target);
     match t.draw(4) {
         0 => "absent",
         1 => {
@@ -71,7 +102,7 @@ fn one_gds(id: &str, t: &mut Tape, dir: &Path, probes: &mut std::collections::BT
         *probes.entry("write_returned_err".into()).or_insert(0) += 1;
         return None;
     }
-    let path = dir.join("out.gds");
+    let path = nm(dir, "out.gds");
     let pre = prestate(t, &path, bytes0.len());
     *probes.entry(format!("prestate_{}", pre)).or_insert(0) += 1;
     if let Err(e) = lib.save(&path) {
@@ -117,7 +148,7 @@ fn one_gds(id: &str, t: &mut Tape, dir: &Path, probes: &mut std::collections::BT
     }
     if id == "C01" && bytes0.len() > 8 {
         // history on a real path: read it, replace it by a different stream of the SAME length, read it again
-        let p2 = dir.join("twice.gds");
+        let p2 = nm(dir, "twice.gds");
         std::fs::write(&p2, &bytes0).unwrap();
         if gds21::GdsLibrary::open(&p2).is_ok() {
             let mut b1 = bytes0.clone();
@@ -173,7 +204,7 @@ fn one_foreign(t: &mut Tape, dir: &Path, probes: &mut std::collections::BTreeMap
             Some(d) => Err(format!("content differs at {}", d)),
         }
     };
-    let path = dir.join("foreign.gds");
+    let path = nm(dir, "foreign.gds");
     std::fs::write(&path, &bytes).unwrap();
     match gds21::GdsLibrary::open(&path) {
         Err(e) => return Some(Viol { sig: "realfs:foreign-open/result".into(), detail: format!("a grammar-conformant stream in a regular file is rejected: {}", e) }),
@@ -239,7 +270,7 @@ fn one_foreign(t: &mut Tape, dir: &Path, probes: &mut std::collections::BTreeMap
 
 fn one_lef(t: &mut Tape, dir: &Path, probes: &mut std::collections::BTreeMap<String, u64>) -> Option<Viol> {
     let (text, _) = gen_lef::gen_lef_text(t, false);
-    let src = dir.join("src.lef");
+    let src = nm(dir, "src.lef");
     std::fs::write(&src, &text).unwrap();
     let lib = match lef21::LefLibrary::open(&src) {
         Ok(l) => l,
@@ -252,7 +283,7 @@ fn one_lef(t: &mut Tape, dir: &Path, probes: &mut std::collections::BTreeMap<Str
         Ok(s) => s,
         Err(e) => return Some(Viol { sig: "realfs:to_string/result".into(), detail: format!("{:?}", e) }),
     };
-    let path = dir.join("out.lef");
+    let path = nm(dir, "out.lef");
     let pre = prestate(t, &path, s0.len());
     *probes.entry(format!("prestate_{}", pre)).or_insert(0) += 1;
     if let Err(e) = lib.save(&path) {
@@ -283,7 +314,7 @@ fn one_ser(t: &mut Tape, dir: &Path, probes: &mut std::collections::BTreeMap<Str
         Ok(s) => s,
         Err(e) => return Some(Viol { sig: format!("realfs:{}:to_string", fname), detail: e.to_string() }),
     };
-    let path = dir.join("lib.markup");
+    let path = nm(dir, "lib.markup");
     let pre = prestate(t, &path, text.len());
     *probes.entry(format!("prestate_{}", pre)).or_insert(0) += 1;
     if let Err(e) = fmt.save(&lib, &path) {
@@ -300,7 +331,7 @@ fn one_ser(t: &mut Tape, dir: &Path, probes: &mut std::collections::BTreeMap<Str
     // the two-tool pipeline on real files
     let mut bytes0 = Vec::new();
     if lib.write(&mut bytes0).is_ok() {
-        let (a, m, b) = (dir.join("a.gds"), dir.join("a.markup"), dir.join("b.gds"));
+        let (a, m, b) = (nm(dir, "a.gds"), nm(dir, "a.markup"), nm(dir, "b.gds"));
         std::fs::write(&a, &bytes0).unwrap();
         let _ = prestate(t, &m, text.len());
         let _ = prestate(t, &b, bytes0.len());
@@ -340,7 +371,7 @@ fn one_cli(id: &str, t: &mut Tape, dir: &Path, probes: &mut std::collections::BT
             Err(format!("{} {:?} exited with {} ({})", exe, args, o.status, String::from_utf8_lossy(&o.stderr).chars().take(200).collect::<String>()))
         }
     };
-    let p = |n: &str| dir.join(n).to_string_lossy().to_string();
+    let p = |n: &str| nm(dir, n).to_string_lossy().to_string();
     match id {
         "C05" => {
             let (text, _) = gen_lef::gen_lef_text(t, false);
@@ -398,6 +429,26 @@ fn one_cli(id: &str, t: &mut Tape, dir: &Path, probes: &mut std::collections::BT
 }
 
 fn run_one(id: &str, master: u64, index: u64, dir: &Path, probes: &mut std::collections::BTreeMap<String, u64>) -> Option<Viol> {
+    // the environment of the calls: half of the runs use the absolute scratch directory and plain names, the others
+    // a relative / dotted / non-ASCII / symlinked directory and a decorated file name (cwd is the scratch directory)
+    let mut et = Tape::record(run_seed(master, &format!("{}-realfs-env", id), index));
+    let (dform, dirbuf): (&str, PathBuf) = if et.chance(1, 2) {
+        ("absolute", dir.to_path_buf())
+    } else {
+        match et.draw(6) {
+            0 => ("relative-bare", PathBuf::from("")),
+            1 => ("relative-dot", PathBuf::from(".")),
+            2 => ("dot-dotdot", PathBuf::from("./sub/..")),
+            3 => ("non-ascii-subdir", dir.join("sub \u{82af}\u{7247}")),
+            4 => ("symlinked-dir", dir.join("dirlink")),
+            _ => ("double-slash", PathBuf::from(format!("{}//sub//", dir.display()))),
+        }
+    };
+    let style = if et.chance(1, 2) { 0 } else { et.draw(NAME_STYLES.len() as u64) };
+    NAME_STYLE.store(style, std::sync::atomic::Ordering::Relaxed);
+    *probes.entry(format!("dir_form_{}", dform)).or_insert(0) += 1;
+    *probes.entry(format!("name_style_{}", NAME_STYLES[style as usize])).or_insert(0) += 1;
+    let dir: &Path = &dirbuf;
     // every 64th run of the file-level properties goes through the command-line tools
     if index % 64 == 63 && (id == "C05" || id == "C18") {
         let mut t = Tape::record(run_seed(master, &format!("{}-realfs-cli", id), index));
@@ -418,10 +469,21 @@ fn run_one(id: &str, master: u64, index: u64, dir: &Path, probes: &mut std::coll
 }
 
 fn main() {
-    let args: Vec<String> = std::env::args().collect();
+    let mut args: Vec<String> = std::env::args().collect();
+    // the working directory changes below: make the --out argument absolute first
+    if let Some(i) = args.iter().position(|a| a == "--out") {
+        if let (Some(o), Ok(cwd)) = (args.get(i + 1).cloned(), std::env::current_dir()) {
+            args[i + 1] = cwd.join(o).to_string_lossy().to_string();
+        }
+    }
     std::panic::set_hook(Box::new(|_| {}));
     let cmd = args.get(1).map(|s| s.as_str()).unwrap_or("");
     let dir = scratch();
+    for sub in ["sub", "sub \u{82af}\u{7247}"] {
+        std::fs::create_dir_all(dir.join(sub)).expect("scratch subdir");
+    }
+    let _ = std::os::unix::fs::symlink("sub", dir.join("dirlink"));
+    std::env::set_current_dir(&dir).expect("cwd");
     let code = match cmd {
         "check" => {
             let id = args.get(2).cloned().unwrap_or_default();
